@@ -118,6 +118,8 @@ def check_named(ctx: core.Ctx, mod: ast.Module, fname: str, kind: str):
     from .. import normast
     nz = normast.Normaliser(normast.class_resolver(mod, cls))
     init = nz.function(init)
+    # class-body constants of the generated class (`_arglist = arglist`, `_name = name`) read through self / cls are the factory's own arguments
+    init = normast.subst_class_attrs(init, normast.class_attr_constants(cls, mod))
     for h in nz.inlined:
         ctx.functions.append(f"common.{h} (inlined into {fname}.__init__)")
     params = [a.arg for a in fn.args.args]
